@@ -19,6 +19,8 @@ statement against a template, the holes H_x being what is translated):
   jsontocsv (the row loop)        M  whole loop body;  T the test deciding whether a blocked response carries path
                                      properties, the Pass? expression, the positions given to _get_srce_dest_trx
   _jsontopath_metric              T  which metric each returned value reads and whether it is rounded again
+  _jsontoparams                   M  whole body (hop ids, label strings, mode lookup);  T the origin of each returned value,
+                                     the two separators
   compare_reqs                    M  the synchronisation-group part;  T the chain of comparisons -> list of compared
                                      fields (each conjunct must be req1.F == req2.F, the last one same_disj)
   requests_aggregation            M  whole body;  T the absorb condition, the joined id, bandwidth sum, N / M concatenation
@@ -464,6 +466,61 @@ Definition g_jsontopath_cols : list (string * colfmt) :=
 ''')
 
 
+JSONTOPARAMS_TEMPLATE = """
+temp = []
+for elem in path_response['path-properties']['path-route-objects']:
+    if 'num-unnum-hop' in elem['path-route-object']:
+        temp.append(elem['path-route-object']['num-unnum-hop']['node-id'])
+pth = H_sep1.join(temp)
+temp2 = []
+for elem in path_response['path-properties']['path-route-objects']:
+    if 'label-hop' in elem['path-route-object'].keys():
+        temp2.append(f'{[e["N"] for e in elem["path-route-object"]["label-hop"]]}, '
+                     + f'{[e["M"] for e in elem["path-route-object"]["label-hop"]]}')
+temp2 = list(OrderedDict.fromkeys(temp2))
+sptrm = H_sep2.join(temp2)
+if trx_mode is not None:
+    [minosnr, baud_rate, bit_rate, cost] = \\
+        next([m['OSNR'], round(m['baud_rate'] * 1e-9, 2), round(m['bit_rate'] * 1e-9, 2), m['cost']]
+             for m in equipment['Transceiver'][trx_type].mode if m['format'] == trx_mode)
+else:
+    [minosnr, baud_rate, bit_rate, cost] = ['', '', '', '']
+H_unpack = _jsontopath_metric(path_response['path-properties']['path-metric'])
+return H_values, cost
+"""
+
+
+def gen_jsontoparams(tree, out):
+    fn = find(tree, '_jsontoparams')
+    b = match_template(JSONTOPARAMS_TEMPLATE, strip_doc(fn.body), '_jsontoparams')
+    for h in ('H_sep1', 'H_sep2'):
+        if not (isinstance(b[h], ast.Constant) and isinstance(b[h].value, str)):
+            raise Unsupported('_jsontoparams: separator')
+    up = b['H_unpack']
+    if not (isinstance(up, ast.Tuple) and all(isinstance(x, ast.Name) for x in up.elts)):
+        raise Unsupported('_jsontoparams: values unpacked from _jsontopath_metric')
+    pos = {x.id: k for k, x in enumerate(up.elts)}
+    fixed = {'pth': 'path', 'sptrm': 'spectrum', 'baud_rate': 'mode:baud_rate', 'bit_rate': 'mode:bit_rate',
+             "minosnr + equipment['SI']['default'].sys_margins": 'mode:OSNR+margin'}
+    if not isinstance(b['H_values'], ast.Tuple):
+        raise Unsupported('_jsontoparams: returned values')
+    vals = []
+    for e in b['H_values'].elts:
+        src = ast.unparse(e)
+        if src in pos:
+            vals.append(f'metric:{pos[src]}')
+        elif src in fixed:
+            vals.append(fixed[src])
+        else:
+            raise Unsupported('_jsontoparams: returned value ' + src)
+    out.append(f'''(* {REQ}: _jsontoparams: where each of the returned values comes from (metric:k = k-th value of
+   _jsontopath_metric, mode:x = attribute of the transceiver mode, path / spectrum = the joined hop ids / label strings);
+   every label object is printed as "[N...], [M...]", duplicates removed, joined with the separator *)
+Definition g_jsontoparams_values : list string := [{"; ".join(slit(v) for v in vals)}].
+Definition g_csv_separators : string * string := ({slit(b["H_sep1"].value)}, {slit(b["H_sep2"].value)}).
+''')
+
+
 # ------------------------------------------------------------------ aggregation
 COMPARE_TEMPLATE = """
 dis1 = [d for d in disjlist if req1.request_id in d.disjunctions_req]
@@ -606,12 +663,13 @@ Open Scope Z_scope.
 
 (* ---- fixed vocabulary of the translator *)
 Definition mv_round (x : option Q) : option mval := match x with Some m => Some (MNum (round2q m)) | None => None end.
-Fixpoint oseq (l : list (string * option mval)) : option (list (string * mval)) :=
+Fixpoint oseq_acc (acc : list (string * mval)) (l : list (string * option mval)) : option (list (string * mval)) :=
   match l with
-  | [] => Some []
-  | (k, Some v) :: t => match oseq t with Some r => Some ((k, v) :: r) | None => None end
+  | [] => Some (rev acc)
+  | (k, Some v) :: t => oseq_acc ((k, v) :: acc) t
   | (_, None) :: _ => None
   end.
+Definition oseq := oseq_acc [].
 Definition cell_gt (a b : cell) : res bool :=
   match a, b with CNum x, CNum y => Ok (negb (Qle_bool x y)) | _, _ => Err "TypeError:>" end.
 Definition cell_le (a b : cell) : res bool :=
@@ -635,6 +693,7 @@ def generate(repo=None):
     out.append('')
     gen_result_element(tree, consts, lists, out)
     gen_csv(tree, consts, lists, out)
+    gen_jsontoparams(tree, out)
     gen_aggregation(tree, out)
     gen_planning(ast.parse(open(os.path.join(repo, WU)).read()), out)
     return '\n'.join(out)
